@@ -64,6 +64,7 @@ def _grid_case(args):
     from dclab.polygon_filter import PolygonFilter
     out = []
     cnt = 0
+    nt = 0
     pts = [(x, y) for x in range(g) for y in range(g)]
     npt = len(pts)
     for code in range(lo, hi):
@@ -76,6 +77,8 @@ def _grid_case(args):
         inside, onb = exact_classify((verts * 2).astype(int), QX, QY)
         ok = ~onb
         cnt += 1
+        # non-trivial: the polygon encloses at least one query point
+        nt += bool((inside & ok).any())
         got = np.asarray(points_in_poly(QPTS, verts))
         case = {"kind": "grid", "g": g, "verts": verts.astype(int).tolist()}
         if not np.array_equal(got[ok], inside[ok]):
@@ -118,7 +121,7 @@ def _grid_case(args):
                 PF + ".filter", "wrong-classification", case,
                 "PolygonFilter.filter / inversion / point_in_poly disagree "
                 "with the even-odd rule", {"nv": nv, "variant": "filter"}))
-    return cnt, out
+    return cnt, out, nt
 
 
 def _rational_inside(px, py, verts):
@@ -309,10 +312,13 @@ def run(ctx):
     res += par.pmap(_polyfile_case, [(ctx.scratch,)])
     viols = []
     cnt = 0
-    for n, vs in res:
-        cnt += n
-        viols.extend(vs)
-    cov = {"evaluations": cnt, "distinct_nontrivial": cnt,
+    nontriv = 0
+    for r in res:
+        cnt += r[0]
+        viols.extend(r[1])
+        # scale / .poly cases use polygons with interior throughout
+        nontriv += r[2] if len(r) > 2 else r[0]
+    cov = {"evaluations": cnt, "distinct_nontrivial": nontriv,
            "query_points_per_polygon": len(QX),
            "rule": "every vertex sequence of length 3,4 (quick) / 3,4,5 "
                    "(thorough) on the 4x4 integer grid (degenerate and "
@@ -322,7 +328,9 @@ def run(ctx):
                    "polygon additionally under all cyclic shifts, reversal, "
                    "repeated closing vertex, inversion and point_in_poly; 6 "
                    "polygons (up to 12 vertices) x scales 2^k and 10^k, "
-                   "k=-20..20, x offset, with a rational oracle; all 15 "
+                   "k=-20..20, x offset, with a rational oracle; non-trivial "
+                   "= the polygon encloses at least one query point "
+                   "(measured per polygon); all 15 "
                    "subsets of a 4-filter pool through a .poly file",
            "samples": [{"verts": [[0, 0], [3, 0], [1, 1], [0, 3]]},
                        {"scale": "10^-20", "poly": "bow tie"},
@@ -344,7 +352,7 @@ def replay(case, ctx):
         code = 0
         for i, v in enumerate(verts):
             code += pts.index(tuple(v)) * (len(pts) ** i)
-        _, vs = _grid_case((nv, code, code + 1, 1, g))
+        _, vs, _ = _grid_case((nv, code, code + 1, 1, g))
         return vs
     if case["kind"] == "scale":
         _, vs = _scale_case((case["base"],))
